@@ -6,7 +6,7 @@
 set -u
 cd "$(dirname "$0")/.."
 export GOFLAGS=-mod=mod GOPROXY=off
-WT=/tmp/govc-selftest-wt
+WT=/tmp/govc-selftest-wt-$$
 cleanup() { git -C /repo worktree remove --force "$WT" >/dev/null 2>&1; rm -rf "$WT"; }
 trap cleanup EXIT
 cleanup
